@@ -471,6 +471,7 @@ func runC03(w *World, r *Report) {
 	// (C02-R2); time does not go back across a resume only when every channel resumes from its own checkpoint (C05-R4)
 	r.importRules(runC02, "C03-", map[string]bool{"C02-R2": true})
 	r.importRules(runC05, "C03-", map[string]bool{"C05-R4": true})
+	c03HybridTSAdvance(w, r, "C03-R11")
 
 	// ---------- R10: joining an existing channel entry never moves its clock back
 	r.Rule("C03-R10", "a second handler cannot set the channel clock back", "InitTSInfo: on an entry that already exists, cts is assigned the seek timestamp only under `cts == 0 || cts < c` (the store is dominated by a comparison of the entry's cts with the new value)", 1)
@@ -687,5 +688,49 @@ func runC03(w *World, r *Report) {
 		r.Check(ok, "C03-R9", "resetMsgPackTimestamp | equal begin time -> equal delta", rp.Pos(), "deltas[i] = deltas[i-1] on the equal-time branch", "messages that had the same source timestamp are emitted with different timestamps (an upsert's delete and insert no longer share a time)")
 	} else {
 		r.Undecided("C03-R9", "resetMsgPackTimestamp", 0, "anchor not found")
+	}
+}
+
+// c03HybridTSAdvance (C03-R11, shared with C05): a hybrid timestamp is (physical ms << 18 | logical). The resume floor is
+// built from the persisted physical milliseconds; "the next instant" after a recorded time t is ComposeTS(t+1, 0).
+// Adding a small constant to a composed timestamp advances the logical part only and stays inside the recorded
+// millisecond, below ticks already delivered at (t, L >= 2).
+func c03HybridTSAdvance(w *World, r *Report, rule string) {
+	r.Rule(rule, "a composed timestamp is not advanced by a logical step", "in the anchored functions (and what they call) no constant smaller than one physical unit (2^18) is added to the result of tsoutil.ComposeTS / ComposeTSByTime: the floor after a recorded millisecond is the next millisecond", 0)
+	n, bad := 0, 0
+	for _, root := range anchoredFuncs(w, r.Prop) {
+		for _, fn := range familyOf(root).Funcs {
+			eachInstr(fn, func(in ssa.Instruction) {
+				bo, ok := in.(*ssa.BinOp)
+				if !ok || bo.Op != token.ADD {
+					return
+				}
+				for _, pair := range [][2]ssa.Value{{bo.X, bo.Y}, {bo.Y, bo.X}} {
+					c, isC := pair[1].(*ssa.Const)
+					if !isC || c.Value == nil {
+						continue
+					}
+					isCompose := false
+					for _, v := range backSlice(pair[0], SliceOpts{MaxDepth: 3, NoAggregates: true}) {
+						if call, isCall := v.(*ssa.Call); isCall {
+							if nm := callSym(call.Common()).name; nm == "ComposeTS" || nm == "ComposeTSByTime" {
+								isCompose = true
+							}
+						}
+					}
+					if !isCompose {
+						continue
+					}
+					n++
+					if k := c.Uint64(); k > 0 && k < 1<<18 {
+						bad++
+						r.Fail(rule, fmt.Sprintf("%s | ComposeTS(...) + %d #%d", shortFn2(fn), k, bad), bo.Pos(), "the composed timestamp is advanced by a logical step only: the value stays inside the recorded millisecond, so a stream resumed from it is floored below ticks that were already delivered with a larger logical part — time goes backwards across the resume")
+					}
+				}
+			})
+		}
+	}
+	if bad == 0 {
+		r.OK(rule, "census", 0, fmt.Sprintf("%d additions to a composed timestamp inspected", n))
 	}
 }
